@@ -186,7 +186,24 @@ def check_equal(inp):
     return None
 
 
+def check_offsets(cellname):
+    """uc_neighbor_offsets(cell) is the set { i*A + j*B + k*C : i, j, k in {-1, 0, 1} }, each once (27 rows)."""
+    from mofun.mofun import uc_neighbor_offsets
+    cell = np.asarray(geo.CELLS[cellname] if cellname in geo.CELLS else SKEW[cellname], dtype=float)
+    got = np.asarray(uc_neighbor_offsets(cell), dtype=float).reshape(-1, 3)
+    want = [i * cell[0] + j * cell[1] + k * cell[2] for i in (-1, 0, 1) for j in (-1, 0, 1) for k in (-1, 0, 1)]
+    if len(got) != 27:
+        return "uc_neighbor_offsets returns %d vectors, expected 27" % len(got)
+    for w in want:
+        if sum(1 for g in got if np.allclose(g, w, atol=1e-9)) != 1:
+            return "image offset %r is missing or repeated among the neighbour offsets of cell %s" % (list(np.round(w, 4)), cellname)
+    return None
+
+
 def replay(inp):
+    if inp.get('special') == 'offsets':
+        msg = check_offsets(inp['cell'])
+        return (msg is not None), (msg or 'the 27 image offsets are the lattice vectors i*A + j*B + k*C')
     if inp.get('special') == 'equal-cutoff':
         msg = check_equal(inp)
         return (msg not in (None, 'skip')), (msg or 'not bonded at exactly the cutoff')
@@ -233,6 +250,11 @@ def run(rec, tier, seed):
             rec.case(repr(sorted(spec.items(), key=str)), group='uneven-through-face')
             if msg:
                 rec.fail('bonds', 'detect_bonds-face', "%s on %r" % (msg, spec), spec, 'C17/detect_bonds/post')
+    for cname in list(geo.CELLS) + list(SKEW):
+        msg = check_offsets(cname)
+        rec.case(('offsets', cname), group='image-offsets')
+        if msg:
+            rec.fail('bonds', 'image-offsets', msg, {'special': 'offsets', 'cell': cname}, 'C17/uc_neighbor_offsets')
     for (e1, e2) in (('I', 'I'), ('K', 'O'), ('Cs', 'Cs'), ('Ba', 'I'), ('Rb', 'Cl')):
         for axis in range(3):
             for extra in (2.9, 3.5):
